@@ -121,3 +121,4 @@ declare_class(
 declare_class("OverhangPremise", fields={"scaffold": TRef("OverlapResult"), "fragment": FRAG})
 declare_class("StartOverhangPremise", bases=["OverhangPremise"], fields={})
 declare_class("EndOverhangPremise", bases=["OverhangPremise"], fields={})
+declare_class("OverhangResolver", fields={"premises_by_fragment_key": TDict(TTuple([STR, INT, INT]), TList(TRef("OverhangPremise"))), "error_length": TOpt(INT)})
